@@ -107,7 +107,8 @@ def dedupGo (seen : List Name) : List Name → List Name
 def dedup (l : List Name) : List Name := dedupGo [] l
 
 /-- the loop of `listdir` / a fully consumed `scandir`: every member in `iterate_fs` order;
-`ResourceNotFound` is skipped, any other error propagates.  Result: (concatenated names,
+`ResourceNotFound` is skipped; `DirectoryExpected` is skipped once a member has listed the path
+and re-raised before that; any other error propagates.  Result: (concatenated names,
 did any member list the path). -/
 def listLoop (f : Fss) (meth : Meth) (p : Str) :
     List Entry → List Name → Bool → Fss × Res (List Name × Bool) × List Call
@@ -120,6 +121,13 @@ def listLoop (f : Fss) (meth : Meth) (p : Str) :
     | .err .ResourceNotFound =>
       let r := listLoop f' meth p es acc ex
       (r.1, r.2.1, c :: r.2.2)
+    | .err .DirectoryExpected =>
+      -- a file of that name (since 8405cc0): shadowed when a member of higher priority already
+      -- listed the path as a directory, else it answers for the path
+      if ex then
+        let r := listLoop f' meth p es acc ex
+        (r.1, r.2.1, c :: r.2.2)
+      else (f', .err .DirectoryExpected, [c])
     | .err er => (f', .err er, [c])
     | .ok (.names l) =>
       let r := listLoop f' meth p es (acc ++ l) true
@@ -149,20 +157,32 @@ def scanFirstLoop (f : Fss) (p : Str) : List Entry → Bool → Fss × Out × Li
     | .err .ResourceNotFound =>
       let r := scanFirstLoop f' p es ex
       (r.1, r.2.1, c :: r.2.2)
+    | .err .DirectoryExpected =>
+      if ex then
+        let r := scanFirstLoop f' p es ex
+        (r.1, r.2.1, c :: r.2.2)
+      else (f', .err .DirectoryExpected, [c])
     | .err er => (f', .err er, [c])
     | .ok (.names (_ :: _)) => (f', .ok (.bool false), [c])
     | .ok _ =>
       let r := scanFirstLoop f' p es true
       (r.1, r.2.1, c :: r.2.2)
 
+/-- `len(set(mode)) == len(mode)` -/
+def noRepeat : Str → Bool
+  | [] => true
+  | c :: cs => !cs.contains c && noRepeat cs
+
 /-- `Mode(mode)` (the constructor validates): non-empty, characters among `rwxtab+`, first
-character among `rwxa`, not both `t` and `b`; `false` = `ValueError` -/
+character among `rwxa`, not both `t` and `b`, and (since 10e1506, the rules of `io.open`) no
+repeated character and exactly one of `r w x a`; `false` = `ValueError` -/
 def modeOk (m : Str) : Bool :=
   match m with
   | [] => false
   | c :: _ =>
     m.all (fun x => modeValidChars.contains x) && ['r', 'w', 'x', 'a'].contains c &&
-      !(m.contains 't' && m.contains 'b')
+      !(m.contains 't' && m.contains 'b') && noRepeat m &&
+      (['r', 'w', 'x', 'a'].filter fun x => m.contains x).length == 1
 
 /-- `check_writable(mode)` = `Mode(mode).writing` -/
 def checkWritable (m : Str) : Bool :=
